@@ -9,6 +9,7 @@
 #include <fcppt/container/bitfield/object_impl.hpp>
 #include <fcppt/config/external_begin.hpp>
 #include <algorithm>
+#include <limits>
 #include <fcppt/config/external_end.hpp>
 
 namespace fcppt
@@ -105,7 +106,21 @@ operator~(fcppt::container::bitfield::object<ElementType, InternalType> _field)
       _field.array().begin(),
       _field.array().end(),
       _field.array().begin(),
-      [](InternalType const _arg) { return ~_arg; });
+      [](InternalType const _arg) { return static_cast<InternalType>(~_arg); });
+
+  // Clear the padding bits of the last word, so that equal sets have equal representations.
+  using bitfield_type = fcppt::container::bitfield::object<ElementType, InternalType>;
+
+  constexpr typename bitfield_type::size_type const bits{
+      static_cast<typename bitfield_type::size_type>(std::numeric_limits<InternalType>::digits)};
+
+  constexpr typename bitfield_type::size_type const used{bitfield_type::static_size::value % bits};
+
+  if constexpr (used != 0U)
+  {
+    _field.array().get_unsafe(bitfield_type::array_size::value - 1U) &= static_cast<InternalType>(
+        static_cast<InternalType>(InternalType{1U} << used) - InternalType{1U});
+  }
 
   return _field;
 }
